@@ -76,13 +76,15 @@ func (t *TraceSCR) AddSingletonFactory(name string, method container.SingletonFa
 	s := t.s(name)
 	attempt := s.attempts
 	t.inner.AddSingletonFactory(name, container.FuncSingletonFactory(func() (*cd.Meta, error) {
-		if s.attempts == attempt {
+		m, err := method.GetComponent()
+		if s.attempts == attempt && m != nil && err == nil {
+			// only successful runs count: a factory that failed produced no early reference
 			s.factoryRuns++
 			if s.factoryRuns > 1 {
-				t.bad("early-reference factory of '%s' ran %d times in one creation attempt", name, s.factoryRuns)
+				t.bad("early-reference factory of '%s' produced %d early references in one creation attempt", name, s.factoryRuns)
 			}
 		}
-		return method.GetComponent()
+		return m, err
 	}))
 }
 
@@ -172,4 +174,21 @@ func (t *TraceSCR) GetSingletonOrCreateByFactory(name string, f container.Single
 func (t *TraceSCR) IsSingletonCurrentlyInCreation(name string) bool {
 	t.call()
 	return t.inner.IsSingletonCurrentlyInCreation(name)
+}
+
+// Published tells whether some creation attempt of name has succeeded.
+func (t *TraceSCR) Published(name string) bool {
+	s := t.st[name]
+	return s != nil && s.published != nil
+}
+
+// Canon renders the abstract protocol state (sorted per-name tuples), probing the real registry
+// for the in-creation mark; used to count distinct states of the explicit-state exploration.
+func (t *TraceSCR) Canon(names []string) string {
+	out := ""
+	for _, n := range names {
+		s := t.s(n)
+		out += fmt.Sprintf("%s:%v,%d,%v,%v,%v|", n, s.published != nil, s.creating, s.early != nil, s.failed, t.inner.IsSingletonCurrentlyInCreation(n))
+	}
+	return out
 }
